@@ -118,13 +118,24 @@ class PandasIndexFeaturesMixin:
                 fill_limit = limit
                 fill_tolerance = tolerance
 
+            value = fill_values.get(name, fill_value)
+            if value is None and fill_method is None:
+                # As in the base class: dtype-aware defaults for dtypes without NaN
+                dtype = self[name].dtype
+                if np.issubdtype(dtype, bool):
+                    value = False
+                elif np.issubdtype(dtype, np.integer):
+                    value = 0
+                elif np.issubdtype(dtype, str):
+                    value = ''
+
             reindexed[name] = (
                 Series(self[name], index=self.span)
                 .reindex(
                     index=span,
                     method=fill_method,
                     copy=copy,
-                    fill_value=fill_values.get(name, fill_value),
+                    fill_value=value,
                     limit=fill_limit,
                     tolerance=fill_tolerance,
                 )
